@@ -43,6 +43,7 @@ def run(ctx):
         rbe_check(ctx, 'R18.8', c, ['set_value'], 'rejected value has already been stored', rbe=rbe)
     rbe_check(ctx, 'R18.8', 'InputParameterMap', ['add'], 'refused add has already changed the map', rbe=rbe)
     model_roundtrip(ctx)
+    r1810_dotted_key(ctx)
 
 
 def value_field(prog):
@@ -416,3 +417,39 @@ def model_roundtrip(ctx):
     ctx.ob('R18.9', 'DSOLModel.get_parameter', ok, sample=f'get_parameter: {[short(s) for s in b]}')
     if not ok:
         ctx.finding('R18.9', 'DSOLModel.get_parameter', ci, gp, 'get_parameter does not return the value of the parameter found by key', where='DSOLModel.get_parameter')
+
+
+def r1810_dotted_key(ctx):
+    """get() and remove() of the parameter map recurse into the sub-map named by the first key element with the REST of
+    the dotted key (everything after the first period); both siblings must do so"""
+    prog = ctx.prog
+    ctx.rule('R18.10', 'InputParameterMap.get / remove recurse with the remainder of the dotted key after its first period (sibling agreement)')
+    ci = prog.cls('InputParameterMap')
+    V = value_field(prog)
+    for m in ('get', 'remove'):
+        fn = prog.method('InputParameterMap', m, inherited=False)
+        k = fn.args.args[1].arg
+        al = {}
+        for st in walk_shallow(fn):
+            if isinstance(st, ast.Assign) and len(st.targets) == 1 and isinstance(st.targets[0], ast.Name):
+                al[st.targets[0].id] = unparse(st.value)
+        rec = [c for c in walk_shallow(fn) if isinstance(c, ast.Call) and isinstance(c.func, ast.Attribute) and c.func.attr == m
+               and isinstance(c.func.value, ast.Subscript) and is_self_attr(c.func.value.value, V)]
+        ok = len(rec) == 1 and len(rec[0].args) == 1
+        why = f'{len(rec)} recursive calls'
+        if ok:
+            sub = unparse(rec[0].func.value.slice)
+            rest = unparse(rec[0].args[0])
+            parts = [n for n, v in al.items() if v == f"{k}.split('.')"]
+            head_ok = sub in [f'{p}[0]' for p in parts] + [f"{k}.split('.')[0]", f"{k}.split('.', 1)[0]", f"{k}.partition('.')[0]", f"{k}[:{k}.find('.')]"] \
+                or any(al.get(sub) in (f"{k}.split('.', 1)[0]", f"{k}.partition('.')[0]") for _ in [0])
+            good_rest = [f"{k}[{k}.find('.') + 1:]", f"{k}.split('.', 1)[1]", f"{k}.partition('.')[2]", f"{k}[{k}.index('.') + 1:]"] \
+                + [f"'.'.join({p}[1:])" for p in parts] + [f'{k}[len({p}[0]) + 1:]' for p in parts]
+            rest_ok = rest in good_rest or al.get(rest) in good_rest
+            ok = head_ok and rest_ok
+            why = f'recurses into `{sub}` with `{rest}`'
+        ctx.ob('R18.10', f'InputParameterMap.{m}', ok, sample=f'InputParameterMap.{m}: {why}')
+        if not ok:
+            ctx.finding('R18.10', f'InputParameterMap.{m}:recursion', ci, rec[0] if rec else fn,
+                        f'{m}() {why}; it must descend into the sub-map named by the first key element with everything after the first period '
+                        f'(e.g. `{k}[{k}.find(".") + 1:]`): with keys of three or more elements the wrong parameter is returned / removed', where=f'InputParameterMap.{m}')
